@@ -216,6 +216,50 @@ INLINE_TEMPLATES = [
 ]
 
 
+SLOT_PAGE = (
+    '<html><body><div metal:define-macro="box">[<span metal:define-slot="body">box default</span>|<em metal:define-slot="foot">box foot</em>]</div>\n'
+    '<div metal:define-macro="footer">{<i metal:define-slot="body">FOOTER DEFAULT</i>}</div>\n'
+    '%s\n<div tal:replace="structure macros/footer">x</div>\n<div tal:content="structure tpl2">y</div>\n'
+    '<ul><li tal:repeat="it seq2" tal:content="structure tpl2">z</li></ul>\n<div tal:replace="structure macros/footer">x2</div>\n</body></html>')
+SLOT_USES = [
+    '<p metal:use-macro="macros/box"><b metal:fill-slot="body">FILLED</b></p>',
+    '<p metal:use-macro="macros/box"><b metal:fill-slot="body">FILLED</b><u metal:fill-slot="foot">FOOT FILLED</u></p>',
+    '<p metal:use-macro="macros/box"><b metal:fill-slot="body" tal:content="s1">FILLED</b></p>',
+    '<ul><li tal:repeat="it seq2"><p metal:use-macro="macros/box"><b metal:fill-slot="body" tal:content="it">FILLED</b></p></li></ul>',
+    '<p metal:use-macro="macros/box">nothing filled</p>',
+]
+
+
+def check_slots(use):
+    """Slot fillings belong to the use-macro that carries them: a macro or a compiled template that is inserted
+    later (tal:content / tal:replace with `structure`) and has a slot of the same name shows its own default."""
+    globs = c17.make_globals()
+    t = simpleTAL.compileHTMLTemplate(SLOT_PAGE % use)
+    t2 = simpleTAL.compileHTMLTemplate('<div metal:define-macro="m2">(<u metal:define-slot="body">TPL2 DEFAULT</u>)</div><p metal:use-macro="macros2/m2">z</p>')
+    ctx = simpleTALES.Context()
+    for k, v in globs.items():
+        ctx.addGlobal(k, v)
+    ctx.addGlobal("macros", t.macros)
+    ctx.addGlobal("tpl2", t2)
+    ctx.addGlobal("macros2", t2.macros)
+    before = snapshot(ctx)
+    out = io.StringIO()
+    try:
+        t.expand(ctx, out)
+    except Exception as e:  # noqa
+        return ("exception", "%s: %s" % (type(e).__name__, e))
+    text = out.getvalue()
+    # after the page's own macro definitions (which show their defaults) and the use under test
+    tail = text.split(use.split(">")[0].split()[0][1:] if False else "</div>\n", 2)[-1]
+    if text.count("FOOTER DEFAULT") != 3:
+        return ("slot-leaked", "the footer macro, inserted after %r, does not show its own default slot content three times: %r" % (use, text))
+    if text.count("TPL2 DEFAULT") != 2 * (1 + 2):
+        return ("slot-leaked", "a compiled template inserted after %r does not show its own default slot content: %r" % (use, text))
+    if snapshot(ctx)[:4] != before[:4]:
+        return ("context-not-restored", "context after expanding the slot page: %r, before: %r" % (snapshot(ctx)[:4], before[:4]))
+    return None
+
+
 def check_inline(template):
     """A compiled Template object in the context, expanded inline by `structure`."""
     globs = c17.make_globals()
@@ -330,7 +374,13 @@ def _shard(shard, seed, tier):
     part = core.Partial()
     kind, items = shard
     for item in items:
-        if kind == "inline":
+        if kind == "slots":
+            bad = check_slots(item)
+            part.state("slots", item)
+            part.outcome("slots", bad[0] if bad else "")
+            key = "slots|%s" % item
+            case = {"kind": "slots", "use": item}
+        elif kind == "inline":
             bad = check_inline(item)
             part.state("inline", item)
             part.outcome("inline", bad[0] if bad else "")
@@ -391,6 +441,8 @@ def replay(case):
         return check_gate_history(tuple(case["hist"]))
     if case["kind"] == "inline":
         return check_inline(case["template"])
+    if case["kind"] == "slots":
+        return check_slots(case["use"])
     return check_restore(case["template"])
 
 
@@ -403,7 +455,7 @@ def run(ck):
         ctx_t = ctx_t[::3] + c17.nested_templates(ck.tier) + c17.metal_templates()
     ctx_t = ctx_t + ITER_TEMPLATES
     gates = [h for n in (1, 2, 3) for h in itertools.product(GATE_SETTINGS[:3] if n == 3 else GATE_SETTINGS, repeat=n)]
-    shards = [("inline", INLINE_TEMPLATES)] + [("gate", ch) for ch in core.chunks(gates, 8)] + [("esc", ch) for ch in core.chunks(esc, core.NPROC)] + [("py", list(range(len(PY_POSITIONS))))] + [("doc", ch) for ch in core.chunks(dl, core.NPROC)] + [("ctx", ch) for ch in core.chunks(ctx_t, core.NPROC * 2)]
+    shards = [("inline", INLINE_TEMPLATES), ("slots", SLOT_USES)] + [("gate", ch) for ch in core.chunks(gates, 8)] + [("esc", ch) for ch in core.chunks(esc, core.NPROC)] + [("py", list(range(len(PY_POSITIONS))))] + [("doc", ch) for ch in core.chunks(dl, core.NPROC)] + [("ctx", ch) for ch in core.chunks(ctx_t, core.NPROC * 2)]
     p = ck.pmap(_shard, shards)
     nb = p.extra.get("python_positions_not_biting", 0)
     if nb:
